@@ -100,7 +100,7 @@ func runCheck(prop, tier string, verbose bool) int {
 		fmt.Fprintf(os.Stderr, "property %s has no check registered\n", prop)
 		return 2
 	}
-	evidencePath := filepath.Join(verifDir, "evidence", prop+".json")
+	evidencePath := filepath.Join(evidenceDir(), prop+".json")
 	os.MkdirAll(filepath.Dir(evidencePath), 0o755)
 	os.Remove(evidencePath)
 	s, err := newSession()
@@ -132,7 +132,7 @@ func runCheck(prop, tier string, verbose bool) int {
 			missing = append(missing, pat)
 		}
 	}
-	dir := filepath.Join(verifDir, "out", "smt", prop)
+	dir := filepath.Join(outDir(), "smt", prop)
 	os.RemoveAll(dir)
 	os.MkdirAll(dir, 0o755)
 	known := loadKnown()
